@@ -49,14 +49,16 @@ fn bf_comp_strategy(idx: usize) -> BoxedStrategy<Comp> {
         prop_oneof![8 => Just(None), 1 => prop_oneof![Just(1u8), Just(2), Just(4), Just(8)].prop_map(Some)],
         prop_oneof![8 => Just(None), 1 => prop_oneof![Just(2u32), Just(4), Just(8), Just(16)].prop_map(Some)],
         0u32..1000,
+        proptest::bool::weighted(0.15),
     )
-        .prop_map(move |(fields, packed, pragma_pack, aligned, salt)| {
+        .prop_map(move |(fields, packed, pragma_pack, aligned, salt, is_union)| {
             let fields = fields
                 .into_iter()
                 .enumerate()
                 .map(|(k, (prim, bits, named))| Field { name: if named { format!("f{k}") } else { String::new() }, ty: FieldTy::Ty(Ty::Prim(prim)), bits, align: None })
                 .collect();
-            Comp { is_union: false, tag: Some(format!("B{idx}_{salt}")), fields, packed, aligned, pragma_pack, typedef_name: None }
+            // (in a union every bit-field starts at bit 0 of its own allocation unit)
+            Comp { is_union, tag: Some(format!("B{idx}_{salt}")), fields, packed: packed && !is_union, aligned: if is_union { None } else { aligned }, pragma_pack: if is_union { None } else { pragma_pack }, typedef_name: None }
         })
         .boxed()
 }
@@ -186,9 +188,10 @@ fn c_program(p: &Program) -> String {
                 }
             }
         }
-        // constructor: zeroed object, every field assigned an extreme
+        // constructor: zeroed object, every field assigned an extreme (members of a union overlap:
+        // there is no whole-object constructor to compare)
         let k = fields.len().min(6);
-        for mask in 0..(1u32 << k) {
+        for mask in 0..(if c.is_union { 0 } else { 1u32 << k }) {
             s.push_str("  memset(&obj, 0, sizeof obj);\n");
             for (fi, f) in fields.iter().enumerate() {
                 let on = fi < k && (mask >> fi) & 1 == 1;
@@ -259,7 +262,7 @@ fn rust_program(p: &Program, bindings_file: &str, text: &str) -> RustPlan {
             continue;
         }
         let name = d.rust_name().unwrap();
-        let Some(item) = inv.items.iter().find(|x| x.kind == "struct" && x.name == name) else {
+        let Some(item) = inv.items.iter().find(|x| (x.kind == "struct" || x.kind == "union") && x.name == name) else {
             problems.push(("rust-type-missing".into(), format!("no struct `{name}`")));
             continue;
         };
@@ -299,7 +302,7 @@ fn rust_program(p: &Program, bindings_file: &str, text: &str) -> RustPlan {
         let k = fields.len().min(6);
         let mut no_ctor = false;
         let ctor_start = s.len();
-        for mask in 0..(1u32 << k) {
+        for mask in 0..(if c.is_union { 0 } else { 1u32 << k }) {
             s.push_str(&format!("  {{ let mut o: {name} = unsafe {{ ::std::mem::zeroed() }};\n"));
             for u in &units {
                 let n = u.name.trim_start_matches("_bitfield_");
@@ -366,6 +369,9 @@ fn struct_class(c: &Comp) -> String {
     if c.aligned.is_some() {
         v.push("aligned");
     }
+    if c.is_union {
+        v.push("union");
+    }
     for (k, f) in c.fields.iter().enumerate() {
         if f.bits == Some(0) {
             let prev_bf = k > 0 && c.fields[k - 1].bits.is_some();
@@ -426,7 +432,7 @@ impl Property for C03 {
     fn assumptions(&self) -> Vec<String> {
         vec![
             "little-endian host only: the big-endian branches of bitfield_unit.rs are not executed".into(),
-            "bit-fields with enum base types and bit-fields inside unions are not generated in (b)".into(),
+            "bit-fields with enum base types are not generated in (b); unions are generated without whole-object constructors (their members overlap)".into(),
             "types bindgen falls back to an opaque blob for expose no accessors and are skipped (counted)".into(),
         ]
     }
@@ -443,7 +449,7 @@ impl Property for C03 {
         false
     }
     fn strategy(&self, _tier: Tier) -> BoxedStrategy<Case> {
-        (prog_strategy(), prop_oneof![3 => Just(vec![]), 1 => Just(vec!["--rust-target".to_string(), "1.64".to_string()]), 1 => Just(vec!["--explicit-padding".to_string()]), 1 => Just(vec!["--with-derive-default".to_string(), "--with-derive-hash".to_string(), "--with-derive-partialeq".to_string()])])
+        (prog_strategy(), prop_oneof![3 => Just(vec![]), 1 => Just(vec!["--rust-target".to_string(), "1.64".to_string()]), 1 => Just(vec!["--explicit-padding".to_string()]), 1 => Just(vec!["--disable-untagged-union".to_string()]), 1 => Just(vec!["--with-derive-default".to_string(), "--with-derive-hash".to_string(), "--with-derive-partialeq".to_string()])])
             .prop_map(|(prog, flags)| Case::Structs { prog, flags, keep_known: false })
             .boxed()
     }
@@ -507,6 +513,35 @@ impl Property for C03 {
                                 c.aligned = None;
                                 out.excluded_known += 1;
                             }
+                            // known finding: the allocation unit of a union is sized by its *last*
+                            // bit-field (all of them start at bit 0): the widest one goes last, and
+                            // zero-width members (which empty the unit) are dropped
+                            if c.is_union {
+                                let n0 = c.fields.len();
+                                c.fields.retain(|f| f.bits != Some(0));
+                                out.excluded_known += n0 - c.fields.len();
+                                // per run of consecutive bit-fields (a plain member ends the unit)
+                                let mut k = 0usize;
+                                while k < c.fields.len() {
+                                    if c.fields[k].bits.is_none() {
+                                        k += 1;
+                                        continue;
+                                    }
+                                    let start = k;
+                                    while k < c.fields.len() && c.fields[k].bits.is_some() {
+                                        k += 1;
+                                    }
+                                    let last = k - 1;
+                                    let widest = (start..=last).max_by_key(|i| (c.fields[*i].bits.unwrap(), *i)).unwrap();
+                                    if c.fields[widest].bits != c.fields[last].bits {
+                                        c.fields.swap(widest, last);
+                                        out.excluded_known += 1;
+                                    }
+                                }
+                                if c.fields.is_empty() {
+                                    c.fields.push(Field { name: "only".into(), ty: FieldTy::Ty(Ty::Prim(Prim::Int)), bits: None, align: None });
+                                }
+                            }
                             if (c.packed || c.pragma_pack.is_some()) && c.fields.iter().any(|f| f.bits.map(|b| b >= 57).unwrap_or(false)) {
                                 // a 57..64-bit field at an unaligned bit offset spans 9 bytes
                                 c.packed = false;
@@ -516,6 +551,27 @@ impl Property for C03 {
                         }
                     }
                 }
+                // (only replays of the known finding still contain such unions)
+                let union_small_unit = prog.decls.iter().any(|d| match d {
+                    Decl::Comp(c) if c.is_union => {
+                        let mut bad = c.fields.iter().any(|f| f.bits == Some(0));
+                        let mut run_max: Option<u8> = None;
+                        for (k, f) in c.fields.iter().enumerate() {
+                            match f.bits {
+                                Some(b) => {
+                                    run_max = Some(run_max.map_or(b, |m| m.max(b)));
+                                    let run_ends = c.fields.get(k + 1).map_or(true, |n| n.bits.is_none());
+                                    if run_ends && Some(b) != run_max {
+                                        bad = true;
+                                    }
+                                }
+                                None => run_max = None,
+                            }
+                        }
+                        bad
+                    }
+                    _ => false,
+                });
                 let header = prog.render();
                 std::fs::write(env.dir.join("in.h"), &header).ok();
                 std::fs::write(env.dir.join("t.c"), c_program(&prog)).ok();
@@ -536,7 +592,8 @@ impl Property for C03 {
                 std::fs::write(env.dir.join("b.rs"), &text).ok();
                 let plan = rust_program(&prog, "b.rs", &text);
                 for (sig, msg) in &plan.problems {
-                    out.fail(sig.clone(), format!("{msg}\n--- header ---\n{header}"));
+                    let sig = if union_small_unit && sig == "accessor-missing" { "accessor-missing/union-with-zero-width-member".to_string() } else { sig.clone() };
+                    out.fail(sig, format!("{msg}\n--- header ---\n{header}"));
                 }
                 if plan.src.is_empty() {
                     return out;
@@ -561,7 +618,7 @@ impl Property for C03 {
                 };
                 if !r.ok() {
                     let wide_packed = prog.decls.iter().any(|d| matches!(d, Decl::Comp(c) if (c.packed || c.pragma_pack.is_some()) && c.fields.iter().any(|f| f.bits.map(|b| b >= 57).unwrap_or(false))));
-                    let what = if r.stderr.contains("overflow") && wide_packed { "unit/span-over-64" } else if r.stderr.contains("overflow") { "accessor-panicked/arithmetic-overflow" } else if r.stderr.contains("panicked") { "accessor-panicked/other" } else { "rust-side-crashed" };
+                    let what = if union_small_unit && r.stderr.contains("panicked") { "accessor-panicked/union-unit-sized-by-last-field" } else if r.stderr.contains("overflow") && wide_packed { "unit/span-over-64" } else if r.stderr.contains("overflow") { "accessor-panicked/arithmetic-overflow" } else if r.stderr.contains("panicked") { "accessor-panicked/other" } else { "rust-side-crashed" };
                     out.fail(what, format!("status {:?} signal {:?}: {}\n--- header ---\n{header}", r.status, r.signal, r.stderr.lines().filter(|l| l.contains("panicked") || l.contains("overflow") || l.contains("assert")).take(4).collect::<Vec<_>>().join(" | ")));
                     return out;
                 }
@@ -596,6 +653,9 @@ impl Property for C03 {
                     let what = if k.contains(" ctor ") { "ctor" } else if k.ends_with(" size") { "size" } else { what };
                     match r_lines.get(k) {
                         None => {
+                            if union_small_unit {
+                                continue; // reported as accessor-missing above
+                            }
                             if reported.insert(format!("missing/{t}")) {
                                 out.fail(format!("transcript-line-missing/{what}/{class}"), format!("`{k}` only on the C side\n--- header ---\n{header}"));
                             }
